@@ -2,12 +2,20 @@
 
 package ingress
 
-import "math/big"
+import (
+	"math/big"
+	"reflect"
+	"strconv"
+	"time"
+	"unsafe"
+)
 
 // White-box access for the C09 check (mounted with -overlay, never committed).
 
 // VerifNonceSnapshot returns the nonce cache of a as nonce -> expiry (Unix ns, exact decimal: an
 // expiry beyond year 2262 does not fit int64 and Time.UnixNano would wrap it in the harness).
+// The map is read through reflection so that the shim keeps compiling when the representation of
+// an expiry changes (time.Time today; an integer count of nanoseconds is read as it is stored).
 func VerifNonceSnapshot(a *HMACAuth) map[string]string {
 	out := map[string]string{}
 	if a == nil || a.nonce == nil {
@@ -15,9 +23,25 @@ func VerifNonceSnapshot(a *HMACAuth) map[string]string {
 	}
 	a.nonce.mu.Lock()
 	defer a.nonce.mu.Unlock()
-	for k, exp := range a.nonce.m {
-		ns := new(big.Int).Mul(big.NewInt(exp.Unix()), big.NewInt(1000000000))
-		out[k] = ns.Add(ns, big.NewInt(int64(exp.Nanosecond()))).String()
+	f := reflect.ValueOf(a.nonce).Elem().FieldByName("m")
+	if !f.IsValid() || f.Kind() != reflect.Map {
+		return out
+	}
+	f = reflect.NewAt(f.Type(), unsafe.Pointer(f.UnsafeAddr())).Elem()
+	it := f.MapRange()
+	for it.Next() {
+		k := it.Key().String()
+		switch v := it.Value().Interface().(type) {
+		case time.Time:
+			ns := new(big.Int).Mul(big.NewInt(v.Unix()), big.NewInt(1000000000))
+			out[k] = ns.Add(ns, big.NewInt(int64(v.Nanosecond()))).String()
+		case int64:
+			out[k] = strconv.FormatInt(v, 10)
+		case uint64:
+			out[k] = strconv.FormatUint(v, 10)
+		default:
+			out[k] = "0"
+		}
 	}
 	return out
 }
